@@ -641,6 +641,70 @@ def gen_obj_history(rng, length):
     return [("expr", ("raw", t)) for t in hist]
 
 
+# int/real "twin" texts: compilable expressions identical except that a numeric literal is an integer in one
+# and the numerically equal real in the other (a*2 / a*2.0). Anything that identifies the two (a memo keyed by
+# a structure in which 2 == 2.0) makes the second one evaluated run the first one's code (oracles only)
+TWIN_VALUES = ['3', '7', '0', '2.5', '4.0', '[1 2 3]', '[4 5]', '[1.5 2.5 3.5]', '[[1 2] [3 4]]', '[2.0 4.0]']
+TWIN_OPS = ['+', '-', '*', '%', '^', '>', '<', '=']
+TWIN_ADVERBS = ['+/', '*/', '|/', '&/', '+\\', '*\\']
+
+
+def gen_twin_pair(rng, names):
+    """two texts that differ only in the kind of one numeric literal"""
+    n_terms = rng.randrange(2, 4)
+    terms, lit_pos = [], []
+    for k in range(n_terms):
+        if rng.random() < 0.5:
+            terms.append(rng.choice(names))
+        else:
+            terms.append(None)
+            lit_pos.append(k)
+    if not lit_pos:
+        terms[-1] = None
+        lit_pos.append(n_terms - 1)
+    if len(lit_pos) == n_terms:
+        terms[0] = rng.choice(names)
+        lit_pos.remove(0)
+    lits = {k: rng.choice([0, 1, 2, 2, 3]) for k in lit_pos}
+    flip = rng.choice(lit_pos)
+    ops = [rng.choice(TWIN_OPS) for _ in range(n_terms - 1)]
+    neg = rng.random() < 0.15
+    adv = rng.choice(TWIN_ADVERBS) if rng.random() < 0.3 else ""
+
+    def render(real_at):
+        parts = []
+        for k, t in enumerate(terms):
+            parts.append(t if t is not None else (f"{lits[k]}.0" if k in real_at else str(lits[k])))
+        body = parts[0]
+        for o, q in zip(ops, parts[1:]):
+            body += o + q
+        return adv + ("-" if neg and terms[0] is not None else "") + body
+    base_real = {k for k in lit_pos if k != flip and rng.random() < 0.3}
+    return render(base_real), render(base_real | {flip})
+
+
+def gen_twin_history(rng, n_pairs):
+    hist = [f"{w}::{rng.choice(TWIN_VALUES)}" for w in DATA]
+    for _ in range(n_pairs):
+        form = rng.randrange(4)
+        t1, t2 = gen_twin_pair(rng, ["x"] if form == 3 else DATA[:3])
+        if rng.random() < 0.5:
+            t1, t2 = t2, t1
+        if form == 0:
+            pair = [t1, t2]
+        elif form == 1:
+            pair = [f"d::{t1}", f"d::{t2}"]
+        elif form == 2:
+            pair = [t1, f"{rng.choice(DATA[:3])}::{rng.choice(TWIN_VALUES)}", t2, t1]
+        else:
+            arg = rng.choice(DATA[:3])
+            pair = ["f::{" + t1 + "}", f"f({arg})", "g::{" + t2 + "}", f"g({arg})", f"f({arg})"]
+        hist += pair
+        if rng.random() < 0.3:
+            hist.append(rng.choice(hist))
+    return [("expr", ("raw", t)) for t in hist]
+
+
 def scripted_histories():
     """hand-made histories the property description names"""
     A_ = lambda n, e: ("expr", assign(n, e))
@@ -704,6 +768,11 @@ def scripted_histories():
     out.append([R_('a::[[1 [2 3]] [4 [5 6 7]]]'), R_('b::a:-9,1,1,0'), R_('a'), R_('c::(1_a):-8,0,1,1'), R_('a'),
                 R_('d::(a@1):=0,0'), R_('a'), R_('d::(|a):-:z,0,0'), R_('a')])
     out.append([R_('a::["ab" "cde"]'), R_('b::a:-0cz,1,0'), R_('a'), R_('c::a:="q",0'), R_('a'), R_('a::["ab" "cde"]'), R_('a')])
+    # int/real twin texts: the second one evaluated must not run the first one's code
+    out.append([R_('a::[1 2 3]'), R_('a*2'), R_('a*2.0'), R_('a*2'), R_('b::7'), R_('b+1'), R_('b+1.0'),
+                R_('+/a*2'), R_('+/a*2.0'), R_('c::5;c-0'), R_('b-0.0')])
+    out.append([R_('a::[1 2 3]'), R_('a*2.0'), R_('a*2'), R_('f::{x+1}'), R_('f(1)'), R_('g::{x+1.0}'), R_('g(3)'),
+                R_('f(3)'), R_('a=1'), R_('a=1.0'), R_('a^2'), R_('a^2.0'), R_('a%2.0'), R_('a%2')])
     # dictionaries are shared and updated in place; dictionary literals are fresh each time
     out.append([A_("t", ("dlit", [(1, 2)])), A_("d", var("t")), E_(op2("join", var("t"), op2("join", lit_int(3), lit_int(4)))),
                 E_(var("d")), A_("t", ("dlit", [(1, 2)])), E_(var("t")), E_(var("d")), E_(op2("find", var("d"), lit_int(3)))])
@@ -872,7 +941,8 @@ def run(ctx):
                 "amend-in-depth, take/drop/index/reverse views then amended, function definitions and calls, over/scan "
                 "on variables, repeated identical texts, variables rebound to another kind, dictionary updates, module "
                 "switches; oracle-only histories over object arrays: ragged rows, rows with symbols/strings/characters, "
-                "lists of strings, depth-3 lists, amended directly and through take/drop/index/reverse); each statement re-run in a fresh interpreter loaded with a copy of the pre-state and in a "
+                "lists of strings, depth-3 lists, amended directly and through take/drop/index/reverse; oracle-only histories of "
+                "int/real twin texts — compilable expressions differing only in 2 vs 2.0 — compared with kinds exact); each statement re-run in a fresh interpreter loaded with a copy of the pre-state and in a "
                 "cache-cleared interpreter; distinct = distinct histories; non-trivial = at least two statements")
     ctx.assumptions += [
         "Python-side mutation of arrays obtained through klong[name] is outside the property",
@@ -900,6 +970,11 @@ def run(ctx):
         for s in range(n_ext):
             h = gen_history(ctx.rng, ctx.rng.randrange(4, 10 if quick else 16), ext=True)
             run_history(ctx, h, drv, "history-ext")
+        for s in range(150 if quick else 2500):
+            h = gen_twin_history(ctx.rng, ctx.rng.randrange(2, 5 if quick else 8))
+            run_history(ctx, h, None, "history-twin")
+            if s < 2:
+                ctx.sample(dict(kind="history-twin", texts=[stmt_text(x) for x in h]))
         for s in range(150 if quick else 2500):
             h = gen_obj_history(ctx.rng, ctx.rng.randrange(4, 10 if quick else 14))
             run_history(ctx, h, None, "history-obj")
